@@ -178,6 +178,14 @@ Theorem only_singles_refused acts st d :
   is_chan d = true /\ (d_agg d = false \/ trysend_agg = true).
 Proof. intros H. apply (ci_drop st (crun_inv acts _ _ CInv_init H)). Qed.
 
+Corollary only_singles_refused_blocking acts st d :
+  trysend_agg = false ->
+  crun trysend_agg cap (cinit ds) acts = Some st -> In d (c_dropped st) ->
+  is_chan d = true /\ d_agg d = false.
+Proof.
+  intros Hts H Hd. destruct (only_singles_refused acts st d H Hd) as [Hc [Ha|Ha]]; [auto|congruence].
+Qed.
+
 (* NO LOSS, NO REORDERING: for a channel type whose deliveries are all of the
    aggregated (blocking) form, what has been dispatched to it is exactly what the
    protocol has received, followed by what sits in the channel, followed by the
